@@ -196,7 +196,15 @@ def gen_knn_case(rng, n_ops=60, pokes=False):
         else:
             if pool and rng.random() < 0.7:
                 base = rng.choice(pool)
-                q = [f32round(x + rng.choice([0, 0, 1e-3, -1e-2, 0.1]) ) for x in base]
+                if rng.random() < 0.35:
+                    # the query IS a stored vector, or differs from it in one coordinate by a hair: true distances of 0 .. 1e-3,
+                    # where a distance computed by cancellation (norm expansion) is wrong in the leading digits (seeded C06-2)
+                    q = list(base)
+                    if rng.random() < 0.6:
+                        j_ = rng.randrange(len(q))
+                        q[j_] = f32round(q[j_] + rng.choice([1e-3, -1e-3, 2e-4, 1e-4]))
+                else:
+                    q = [f32round(x + rng.choice([0, 0, 1e-3, -1e-2, 0.1]) ) for x in base]
             else:
                 q, _ = knn_vec(rng, dim, metric)
             if metric != "l2" and rng.random() < 0.4:
